@@ -225,7 +225,7 @@ class Design:
         steps, nstmts = [], 0
         for b in d.blocks:
             steps.append({"name": b["name"], "kind": b["kind"], "once": bool(b.get("once")),
-                          "stmts": [st(x) for x in b["stmts"]]})
+                          "stmts": [st(x) for x in b["stmts"]], "nr": [], "nw": []})
         for n in d.nets:
             stmts, seen = [], set()
             if isinstance(n.writer, View):
@@ -243,7 +243,9 @@ class Design:
                         continue          # whole signal tied to a constant: the cell *is* the constant
                     seen.add(c)
                 stmts.append(st({"k": "as", "t": m, "e": src}))
-            steps.append({"name": d.net_name(n), "kind": "net", "once": False, "stmts": stmts})
+            nr = [[n.writer.sig.idx + 1, n.writer.lo, n.writer.hi]] if isinstance(n.writer, View) else []
+            nw = [[m.sig.idx + 1, m.lo, m.hi] for m in n.members]
+            steps.append({"name": d.net_name(n), "kind": "net", "once": False, "stmts": stmts, "nr": nr, "nw": nw})
         name2idx = {s["name"]: i + 1 for i, s in enumerate(steps)}
 
         def count(ss):
@@ -856,13 +858,13 @@ def footprints(dj):
     def erefs(e):
         k = e["k"]
         if k == "sig":
-            return {(dj["sigs"][e["s"] - 1]["rep"], b) for b in range(e["lo"], e["hi"])}
+            return {(e["s"], b) for b in range(e["lo"], e["hi"])}
         if k == "lit":
             return set()
         if k == "idx":
             out = erefs(e["i"])
             for s in e["arr"]:
-                out |= {(dj["sigs"][s - 1]["rep"], b) for b in range(e["lo"], e["hi"])}
+                out |= {(s, b) for b in range(e["lo"], e["hi"])}
             return out
         out = set()
         for f in ("a", "b", "c", "hi", "lo"):
@@ -885,14 +887,16 @@ def footprints(dj):
         out = set()
         for x in ss:
             if x["k"] == "as":
-                out |= {(dj["sigs"][x["t"]["s"] - 1]["rep"], b) for b in range(x["t"]["lo"], x["t"]["hi"])}
+                out |= {(x["t"]["s"], b) for b in range(x["t"]["lo"], x["t"]["hi"])}
             elif x["k"] == "asi":
                 for s in x["arr"]:
-                    out |= {(dj["sigs"][s - 1]["rep"], b) for b in range(dj["sigs"][s - 1]["w"])}
+                    out |= {(s, b) for b in range(dj["sigs"][s - 1]["w"])}
             else:
                 out |= sw(x["th"]) | sw(x["el"])
         return out
-    return [(sr(s["stmts"]), sw(s["stmts"])) for s in dj["steps"]]
+    def vb(vs):
+        return {(s, b) for (s, lo, hi) in vs for b in range(lo, hi)}
+    return [(sr(s["stmts"]) | vb(s.get("nr", [])), sw(s["stmts"]) | vb(s.get("nw", []))) for s in dj["steps"]]
 
 
 def block_graph(dj):
@@ -957,6 +961,42 @@ def self_loop_free(dj):
                 if ri & wj:
                     return False
     return True
+
+
+def alias_self_loop(dj):
+    """A block writes signal X and reads a DIFFERENT signal Y that shares X's storage cell (X and Y are
+    whole top-level members of one net).  pymtl3 has a net block X -> Y between the two, so the block
+    depends on itself through the net (a block-level cycle: outside C01/C02's acyclic premise), while
+    at cell level the specification sees an ordinary read-after-write inside one block.  Such designs are
+    not generated (neither as acyclic nor as false loops)."""
+    sigs = dj["sigs"]
+
+    def refs(x, out_r, out_w):
+        if isinstance(x, dict):
+            k = x.get("k")
+            if k == "sig":
+                out_r.add(x["s"])
+            elif k == "idx":
+                out_r.update(x["arr"])
+            elif k == "as":
+                out_w.add(x["t"]["s"])
+            elif k == "asi":
+                out_w.update(x["arr"])
+            for v in x.values():
+                refs(v, out_r, out_w)
+        elif isinstance(x, list):
+            for v in x:
+                refs(v, out_r, out_w)
+    for st in dj["steps"]:
+        if st["kind"] == "ff":
+            continue
+        r, w = set(), set()
+        refs(st["stmts"], r, w)
+        for a in w:
+            for b in r:
+                if a != b and sigs[a - 1]["rep"] == sigs[b - 1]["rep"]:
+                    return True
+    return False
 
 
 def gen_design(rng, name, opts=None, want="acyclic", tries=50):
